@@ -296,7 +296,17 @@ def _opts_json(opts):
         return None
     o = dict(opts)
     if "partition" in o:
+        o["partition_is_tuple"] = isinstance(o["partition"], tuple)
         o["partition"] = [int(p) for p in o["partition"]]
+    return o
+
+
+def _opts_from_json(oj):
+    if oj is None:
+        return None
+    o = dict(oj)
+    if o.pop("partition_is_tuple", False):
+        o["partition"] = tuple(o["partition"])
     return o
 
 
@@ -462,5 +472,5 @@ def schur_sweep(ctx, deep):
 
 
 def replay(ctx, case):
-    return eval_case(ctx, case["class"], case.get("opt_params"), dec_vec(case["vector"]), case.get("family", "replay"),
+    return eval_case(ctx, case["class"], _opts_from_json(case.get("opt_params")), dec_vec(case["vector"]), case.get("family", "replay"),
                      case.get("as_list", False), case.get("tag", ""))
